@@ -76,5 +76,8 @@ def main():
     finally:
         sh("git -C /repo worktree remove --force %s" % wt)
     sh("rm -rf /verif/replays/%s" % prop)
+    # the evidence file must describe the unchanged tree: rewrite it from a run on /repo as it is
+    rc, out = sh("cd /verif && ./check %s --tier quick" % prop)
+    print("evidence rewritten on the unchanged tree:", [l for l in out.split("\n") if l.startswith(("VIOLATION", "OK", "BROKEN"))][:1])
 
 main()
